@@ -277,7 +277,7 @@ fn cases_for(prop: &str, tier: &str, seed: u64, out: &mut Out) {
                     out.verdict(&id, &format!("scenario big-index {}", n), round3::oracle_big_index(n));
                 }
             }
-            if prop == "C01" || prop == "C18" {
+            if prop == "C01" {
                 // parts longer than any block a writer could reasonably buffer
                 for (fam, d) in ALL13.iter().filter(|(f, _)| *f != "point") {
                     for n in [257usize, 513, 1025] {
@@ -290,11 +290,7 @@ fn cases_for(prop: &str, tier: &str, seed: u64, out: &mut Out) {
                             _ => Ctor::MultipatchParts(vec![(Kind::Strip, ps.clone()), (Kind::Ring, ps[..4].to_vec())]),
                         };
                         stats.hit("shape.long-part");
-                        if prop == "C01" {
-                            run_and_judge(out, &Case::Write { shx: true, ctors: vec![c] });
-                        } else {
-                            run_and_judge(out, &Case::Size(c));
-                        }
+                        run_and_judge(out, &Case::Write { shx: true, ctors: vec![c] });
                     }
                 }
             }
@@ -494,6 +490,21 @@ fn cases_for(prop: &str, tier: &str, seed: u64, out: &mut Out) {
                 let mut g = Gen { rng: &mut rng, stats: &mut stats, max_parts: if tier == "thorough" { 40 } else { 9 }, max_points: if tier == "thorough" { 64 } else { 20 } };
                 let c = g.ctor(fam, d, Flavor::Special, true);
                 run_and_judge(out, &Case::Size(c));
+            }
+            // parts longer than any block a writer could reasonably buffer
+            for (fam, d) in ALL13.iter().filter(|(f, _)| *f != "point") {
+                for n in [257usize, 513, 1025] {
+                    let mut g = Gen { rng: &mut rng, stats: &mut stats, max_parts: 1, max_points: n };
+                    let ps = g.pts(*d, n, Flavor::Exact, false);
+                    let c = match *fam {
+                        "multipoint" => Ctor::Multipoint(*d, ps),
+                        "polyline" => Ctor::PolylineParts(*d, vec![ps.clone(), ps[..3].to_vec()]),
+                        "polygon" => Ctor::PolygonRings(*d, vec![(Role::Outer, ps)]),
+                        _ => Ctor::MultipatchParts(vec![(Kind::Strip, ps.clone()), (Kind::Ring, ps[..4].to_vec())]),
+                    };
+                    stats.hit("shape.long-part");
+                    run_and_judge(out, &Case::Size(c));
+                }
             }
             // files of several shapes of different sizes: every record header and index entry
             // announces the length of its own record
